@@ -829,6 +829,9 @@ fn resolve_names_item_decl(ctx: &mut StaticsContext, symbol_table: &SymbolTable,
                 for variant in &enum_def.variants {
                     for field in &variant.fields {
                         resolve_names_typ(ctx, &symbol_table, &field.ty, false);
+                        if let Some(default_val) = &field.default_val {
+                            resolve_names_expr(ctx, &symbol_table, default_val);
+                        }
                     }
                 }
             }
@@ -1296,6 +1299,12 @@ fn resolve_names_func_helper_decl_only(
     args: &[ArgMaybeAnnotated],
     ret_type: &Option<Rc<Type>>,
 ) {
+    // default values are evaluated at the call site: resolve them before the parameters come into scope
+    for arg in args {
+        if let Some(default_val) = &arg.default_val {
+            resolve_names_expr(ctx, symbol_table, default_val);
+        }
+    }
     for arg in args {
         resolve_names_fn_arg(symbol_table, &arg.name);
         if let Some(ty_annot) = &arg.ty {
@@ -1315,6 +1324,12 @@ fn resolve_names_func_helper(
     body: &Rc<Expr>,
     ret_type: &Option<Rc<Type>>,
 ) {
+    // default values are evaluated at the call site: resolve them before the parameters come into scope
+    for arg in args {
+        if let Some(default_val) = &arg.default_val {
+            resolve_names_expr(ctx, symbol_table, default_val);
+        }
+    }
     for arg in args {
         resolve_names_fn_arg(symbol_table, &arg.name);
         if let Some(ty_annot) = &arg.ty {
